@@ -177,8 +177,7 @@ def check_validator_reachability(ctx, F):
             ctx.unresolved('R7', role, dp, 'no production site reached by an enumerated path', key=key)
     ctx.extra['model_production_sites'] = n_sites
     ctx.extra['model_producers'] = len(info)
-    if len(info) < 25:
-        ctx.bad('R7', 'floor: model-producing functions', 'stream::model', 'only %d found (>= 25 on the reference tree)' % len(info), key='R7/floor/model-producers')
+    ctx.floor('R7', 'floor: model-producing functions', 'stream::model', len(info), 25, 'only %d found (>= 25 on the reference tree)' % len(info), key='R7/floor/model-producers')
 
 
 # ---------------------------------------------------------------- clause 2
